@@ -355,9 +355,22 @@ def cases_mog(ctx, gen, quick):
             cs = None if cf is None else draw(gen, [R, cf], 'normal')
             seed = rng.randrange(2 ** 31)
             del rec[:]
+            ctx_seen = []
+            hp = d._made.register_forward_pre_hook(lambda mod, args, kwargs: ctx_seen.append(kwargs.get('context', args[1] if len(args) > 1 else None)), with_kwargs=True)
             torch.manual_seed(seed)
             impl = run(lambda: d.sample(n, cs))
+            hp.remove()
             passes = list(rec)
+            if cs is not None and ctx_seen and ctx_seen[0] is not None:
+                # row pairing (theorem Properties.C04.repeat_rows_get): flat row k of the ancestral pass is conditioned on context row k // n
+                want = cs.repeat_interleave(n, 0)
+                got = ctx_seen[0].detach()
+                okp = got.shape == want.shape and torch.equal(got, want)
+                if not okp:
+                    out.append(dict(kind='sample', cls='MoG', key=('MADEMoG', F, M, 'rows', regime, R, n, 'sample-pairing'),
+                                    desc=dict(features=F, R=R, n=n, what='context rows handed to the MADE during sampling'),
+                                    impl=('ok', torch.tensor([0.0])), req=dict(op='c05.consts', i=[0]), nontrivial=True,
+                                    force_disagree='sampling pairs flat row k with a context row other than k // num_samples'))
             if cs is None:
                 out.append(dict(kind='sample', cls='MoG', key=('MADEMoG', F, M, 'none', 'sample-no-context'),
                                 desc=dict(features=F, components=M, context=None, n=n, note='finding F15'), impl=impl,
